@@ -1,7 +1,7 @@
 (* C09 - Concatenation, padding, diag, mode products and TT<->TTM conversion are exact.
    Only theorem statements closed by `exact`, each followed by Print Assumptions. *)
 From Coq Require Import List Arith.
-From TT Require Import RingSig SumN Mat Dense Core Arith MatOps Reduce Struct CoreP ArithP MatOpsP StructP.
+From TT Require Import RingSig SumN Mat Dense Core Arith MatOps Reduce Struct CoreP ArithP MatOpsP StructP CatNP PadTTMP.
 Import ListNotations.
 
 Section C09.
@@ -55,6 +55,32 @@ Proof. exact (conj_full x idx). Qed.
 Theorem C09_conj_ttm_full (x : ttm R) is_ js : entry4 (conj_ttm x) is_ js = rconj (entry4 x is_ js).
 Proof. exact (conj_ttm_full x is_ js). Qed.
 
+(* cat of any number of operands (the fold over the tuple that torchtt.cat performs): the first operand whose range along dim contains
+   the index (cat_spec / cat_total: CatNP.v) *)
+Theorem C09_cat_tt_full dim (t : tt R) (rest : list (tt R)) idx :
+  wf t -> (dim < length t)%nat -> length idx = length t ->
+  Forall (fun u => wf u /\ length u = length t) rest ->
+  (nth dim idx 0 < cat_total dim (t :: rest))%nat ->
+  entry (cat_tt dim (t :: rest)) idx = cat_spec dim (t :: rest) idx.
+Proof. exact (cat_tt_full dim t rest idx). Qed.
+
+(* a list of mode products (x.mprod(list of matrices, list of modes)): the fold of the single-mode contraction (mprod_spec: CatNP.v) *)
+Theorem C09_mprod_list_full ms (x : tt R) idx :
+  Forall (fun m => (fst (fst m) < length x)%nat) ms -> length idx = length x ->
+  entry (mprod_list x ms) idx = mprod_spec (entry x) (shape x) ms idx.
+Proof. exact (mprod_list_full ms x idx). Qed.
+
+(* padding of a TT matrix: value * I in the leading block, A in the middle, value * I in the trailing block, zero elsewhere *)
+Theorem C09_pad_ttm_full (x : ttm R) padding value is_ js :
+  wf4 x -> (length padding <= length x)%nat -> length is_ = length x ->
+  Forall2 lt js (padN x (fill_pads (length x) padding)) ->
+  entry4 (pad_ttm x padding value) is_ js =
+    let pd := fill_pads (length x) padding in
+    (if all_lead pd is_ js then value else 0)
+    + match in_block4 x pd is_ js with Some (i', j') => entry4 x i' j' | None => 0 end
+    + (if all_trail x pd is_ js then value else 0).
+Proof. exact (pad_ttm_full x padding value is_ js). Qed.
+
 End C09.
 Print Assumptions C09_remaps_entry.
 Print Assumptions C09_pad_tt_full.
@@ -67,3 +93,6 @@ Print Assumptions C09_to_ttm_full.
 Print Assumptions C09_to_ttm_shapes.
 Print Assumptions C09_conj_full.
 Print Assumptions C09_conj_ttm_full.
+Print Assumptions C09_cat_tt_full.
+Print Assumptions C09_mprod_list_full.
+Print Assumptions C09_pad_ttm_full.
